@@ -274,6 +274,10 @@ def run(rep):
         ip = ip.lstrip("0") or "0"
         if len(ip) > 16:
             ip = ip[:16]
+        if i % 12 == 0:
+            # magnitudes beyond 2^64 (what the suffixes Z and Y reach): 17..25 integer digits, no fraction
+            ip = (ip + "0" * 25)[:rng.randint(17, 25)]
+            fp = ""
         sh = {"neg": rng.random() < 0.3, "ip": digits_of(ip), "fp": digits_of(fp.rstrip("0"))}
         st = rng.choice(sts)
         kind = rng.choice(["num", "num", "num", "pct", "money", "unit"])
